@@ -1710,8 +1710,17 @@ TIE_PLACEMENT_TRUSTED = ("Generated/Placement.lean is produced by verif/extract 
                          "Model/GridPlacement.lean (vocabulary Occ.* in Model/PlacementOps.lean: gridNew, gridFromVec, unwrap, rposition, forM, "
                          "loop); NodeId, the item style and the two alignments passed on to GridItem::new_with_placement_style_and_order are not "
                          "modelled (a GridItem is its source order and its two spans)")
+# second part (task V): the mutating functions of CellOccupancyMatrix (fold lemmas Occ.forM vs List.replicate / copyRows / markRows), the two
+# occupancy queries, record_grid_placement (generated items = the model's items reversed, `auto` flag erased) and implicit_grid.rs'
+# get_known_child_positions / compute_grid_size_estimate (`impl Iterator<Item = S>` is the list of styles, `for_each` a fold)
+TIE_PLACEMENT2 = ["TiePlacement." + t for t in (
+    "forM_push forM_push_range forM_copyRow forM_copyRows copy_row_body forM_markRow forM_markRows mark_nest "
+    "expand_to_fit_range_eq mark_area_as_eq row_is_occupied_eq column_is_occupied_eq record_grid_placement_eq "
+    "forM_known get_known_child_positions_eq OO_swap OO_impliedPositive OO_estRest estimateAxis_split "
+    "compute_grid_size_estimate_eq phase1_step_eq phase2_step_eq phase4_step_eq estimate_then_matrix_eq").split()]
 for _pid in ("C08", "C03"):
     _add_tie(_pid, "TaffyVerif.Props.TiePlacement", TIE_PLACEMENT)
+    _add_tie(_pid, "TaffyVerif.Props.TiePlacement2", TIE_PLACEMENT2)
     PROPS[_pid]["trusted_base"] = list(PROPS[_pid].get("trusted_base", [])) + [TIE_PLACEMENT_TRUSTED]
 
 HOOK_COMMITS = [
